@@ -178,10 +178,6 @@ noncomputable def oscKept : Eig ℂ 1 1 where
   invV := ![fun _ => -Complex.I / 2]
   invD := ![fun _ => 1 / 2]
 
-private theorem sum_sub1 (f : {k : Fin 1 // (fun _ : Fin 1 => true) k = true} → ℂ) :
-    ∑ k, f k = f ⟨0, rfl⟩ := by
-  rw [← Finset.sum_subtype (Finset.univ : Finset (Fin 1)) (by simp) (fun k => f ⟨k, rfl⟩)]
-  simp
 
 /-- the kept data of the oscillator satisfy the specification -/
 theorem oscKept_spec : DelconjSpec oscKept (fun _ => true) (fun _ => false)
